@@ -46,3 +46,18 @@ pub proof fn lemma_auth_layout(s: Seq<u8>, i: int)
 }
 
 } // verus!
+verus! {
+pub struct Auth3 {
+    pub user_info: Option<(int, int)>,
+    pub host: (int, int),
+    pub port: Option<(int, int)>,
+}
+/// RFC 3986 3.2:  authority = [ userinfo "@" ] host [ ":" port ]   for a stand-alone authority text
+pub open spec fn rfc_auth(a: Seq<u8>) -> Auth3 {
+    Auth3 {
+        user_info: if a_has_ui(a, 0) { Some((0int, a_at(a, 0))) } else { None },
+        host: (a_host_start(a, 0), a_host_end(a, 0)),
+        port: if a_has_port(a, 0) { Some((a_host_end(a, 0) + 1, a.len() as int)) } else { None },
+    }
+}
+} // verus!
